@@ -249,7 +249,21 @@ def write_log(spec: dict[str, Any], directory: Path, name: str) -> Written:
     prev_disable = logging.root.manager.disable
     logging.disable(logging.NOTSET)
     lg.addFilter(cap)
+    gate = None
+    real_emit = glog._ZstdFileHandler.emit
+    if spec.get("slow_writer"):
+        # the writer thread is held up (a slow / remote file system) while the run logs: nothing may be lost
+        import threading
+
+        gate = threading.Event()
+
+        def held_emit(self: Any, record: Any) -> None:
+            gate.wait(60)
+            real_emit(self, record)
+
+        glog._ZstdFileHandler.emit = held_emit  # type: ignore[method-assign]
     handler = glog.add_zst_log_handler(LOGGER, path, Loglevel.TRACE)
+    close_error = None
     try:
         for i, r in enumerate(recs):
             msg = f"{r['msg'][: len(r['msg']) // 2]}{MARK_L}{i + 1}{MARK_R}{r['msg'][len(r['msg']) // 2:]}"
@@ -269,9 +283,17 @@ def write_log(spec: dict[str, Any], directory: Path, name: str) -> Written:
             else:
                 fn(msg, *args, **kw)
     finally:
-        glog.remove_zst_log_handler(LOGGER, handler)
+        if gate is not None:
+            gate.set()
+        try:
+            glog.remove_zst_log_handler(LOGGER, handler)
+        except Exception as e:  # noqa: BLE001  (judged through what can be read back)
+            close_error = repr(e)
+        glog._ZstdFileHandler.emit = real_emit  # type: ignore[method-assign]
         lg.removeFilter(cap)
         logging.disable(prev_disable)
+    if close_error is not None:
+        spec = dict(spec, close_error=close_error)
     if len(cap.seen) != len(recs):
         raise Machinery(f"writer harness: logged {len(recs)} records, the logger saw {len(cap.seen)}")
     return Written(spec, path, cap.seen)
